@@ -97,6 +97,8 @@ def state_dict_roundtrip(ctx, t, origin, wf_lines, wf_meta):
 
 def run(ctx):
     import optimum.quanto as q
+    import extract
+    extract.main()
     lean_obligations(ctx)
     rng = ctx.rng
     ctx.extra["rule"] = ("every quantized value reached by the C05 programs (depth 1-8), by quantize_weight / quantize_activation over all six qtypes, axes, group sizes, dtypes and ranks, "
